@@ -300,6 +300,74 @@ def coq_qpts(pts):
 
 
 # ------------------------------------------------------------------ Coq evaluation
+# The correspondence files are compiled against a PRIVATE build of the model (build/C01/snap):
+# coq/C01/gen/Tables.v is shared with the C03 check (same translator), and a C03 run against
+# another tree may replace it and rebuild the shared .vo files while this run is evaluating.
+SNAP_CORE = ['Str', 'Dec', 'gen/Tables', 'Model', 'Materials']
+SNAP_ORIENT = ['ProofsLines', 'ProofsHeaders', 'ProofsAux', 'ProofsText', 'Orient']
+SNAP = {'dir': None}
+
+
+def build_snapshot(ctx, tables_text):
+    """-> (model_ok, orient_ok, log): private copies of the model sources + the tables of THIS
+    run, compiled in build/C01/snap; reused when nothing changed since the last run"""
+    import hashlib
+    import shutil
+    import subprocess
+    snap = ctx.scratch / 'snap'
+    srcs = {}
+    for f in SNAP_CORE + SNAP_ORIENT:
+        srcs[f] = tables_text if f == 'gen/Tables' else (lib.COQ / 'C01' / (f + '.v')).read_text()
+    key = hashlib.sha256(json.dumps(srcs, sort_keys=True).encode()).hexdigest()
+    stamp = snap / 'key.json'
+    if stamp.exists():
+        try:
+            old = json.loads(stamp.read_text())
+            if old.get('key') == key:
+                SNAP['dir'] = snap
+                return old['model_ok'], old['orient_ok'], 'snapshot reused'
+        except (ValueError, KeyError):
+            pass
+    shutil.rmtree(snap, ignore_errors=True)
+    (snap / 'C01' / 'gen').mkdir(parents=True)
+    for f, txt in srcs.items():
+        (snap / 'C01' / (f + '.v')).write_text(txt)
+    log = []
+
+    def compile_all(files):
+        for f in files:
+            try:
+                r = subprocess.run(['coqc', '-q', '-Q', str(snap), 'FV', str(snap / 'C01' / (f + '.v'))],
+                                   capture_output=True, text=True, timeout=900, cwd=snap)
+            except subprocess.TimeoutExpired:
+                log.append(f'{f}: timeout')
+                return False
+            if r.returncode != 0:
+                log.append(f'{f}: ' + r.stderr[-600:])
+                return False
+        return True
+    model_ok = compile_all(SNAP_CORE)
+    orient_ok = model_ok and compile_all(SNAP_ORIENT)
+    SNAP['dir'] = snap
+    stamp.write_text(json.dumps({'key': key, 'model_ok': model_ok, 'orient_ok': orient_ok}))
+    return model_ok, orient_ok, '\n'.join(log)
+
+
+def snap_eval(ctx, name, text, timeout=600):
+    """compile a scratch file against the private snapshot -> (rc, stdout, stderr)"""
+    import subprocess
+    if SNAP['dir'] is None:
+        return ctx.coq_eval(name, text, timeout=timeout)
+    f = ctx.scratch / f'{name}.v'
+    f.write_text(text)
+    try:
+        r = subprocess.run(['coqc', '-q', '-Q', str(SNAP['dir']), 'FV', str(f)],
+                           capture_output=True, text=True, timeout=timeout, cwd=ctx.scratch)
+    except subprocess.TimeoutExpired:
+        return 124, '', 'timeout'
+    return r.returncode, r.stdout, r.stderr
+
+
 def coq_failing(ctx, name, items, timeout=900, chunk_bytes=70000, head=None):
     """items: list of (id, coq boolean expression).  Returns the ids whose
     expression evaluates to false, or None when a file does not compile.
@@ -322,7 +390,7 @@ def coq_failing(ctx, name, items, timeout=900, chunk_bytes=70000, head=None):
         txt.append(';\n'.join(f'({i}%Z, {e})' for i, e in chunk) + '].')
         txt.append('Goal True. idtac "@@ failing". Abort.')
         txt.append('Eval vm_compute in map fst (filter (fun c => negb (snd c)) cases).')
-        return ctx.coq_eval(f'{name}_{k}', '\n'.join(txt) + '\n', timeout=timeout)
+        return snap_eval(ctx, f'{name}_{k}', '\n'.join(txt) + '\n', timeout=timeout)
 
     with ThreadPoolExecutor(max_workers=12) as ex:
         results = list(ex.map(one, range(len(files))))
@@ -341,7 +409,7 @@ def coq_show(ctx, name, expr):
     """evaluate an expression of type list string in Coq and return the lines"""
     txt = [COQ_HEAD, 'Goal True. idtac "@@ value". Abort.',
            f'Eval vm_compute in ({expr}).']
-    rc, out, err = ctx.coq_eval(name, '\n'.join(txt) + '\n')
+    rc, out, err = snap_eval(ctx, name, '\n'.join(txt) + '\n')
     if rc != 0:
         return ['<coq error> ' + err[-300:]]
     t = lib.parse_marked(out).get('value', '')
@@ -437,13 +505,13 @@ def main(ctx):
                                             'note': 'translator failed closed'})
     model_ok = tie_ok
     orient_ok = proof_ok
-    if tie_ok and not proof_ok:
-        ok, log, _ = lib.coq_make(['C01/Materials.vo'])
-        model_ok = ok
-        if not ok:
-            ctx.notes['model_build_log_tail'] = log[-1500:]
-        else:
-            orient_ok, _, _ = lib.coq_make(['C01/Orient.vo'])
+    if tie_ok:
+        t0 = time.time()
+        model_ok, orient_ok, slog = build_snapshot(ctx, tables_text)
+        ctx.log(f'private model snapshot for the correspondence (build/C01/snap): model_ok={model_ok} '
+                f'orient_ok={orient_ok} ({time.time() - t0:.1f}s) {slog[:300]}')
+        if not model_ok:
+            ctx.notes['model_build_log_tail'] = slog[-1500:]
 
     # ---------------------------------------------------------------- 3. cases
     n_mesh = {'quick': 40, 'thorough': 600}.get(tier, 40)
@@ -758,10 +826,11 @@ def main(ctx):
         path = 'fastpath' if k % 2 else 'plain'
         em = cm.gen_mesh(ctx.rng, types=None if k >= 2 else ['tet'], features={
             'groups': 'some', 'empty_group': path, 'sections': 'none', 'materials': 'none'})
-        if path == 'fastpath' and sum(len(ids) for _, ids, _ in em['elems']) < 2:
-            path = 'plain'
-            em = cm.gen_mesh(ctx.rng, features={'groups': 'some', 'empty_group': path,
-                                                'sections': 'none', 'materials': 'none'})
+        for _ in range(20):          # the one-group-per-element configuration needs >= 2 elements
+            if path != 'fastpath' or sum(len(ids) for _, ids, _ in em['elems']) >= 2:
+                break
+            em = cm.gen_mesh(ctx.rng, size='large', features={
+                'groups': 'some', 'empty_group': path, 'sections': 'none', 'materials': 'none'})
         # which path write_msh takes is decided by its own guard: len(values) == n_elements ==
         # len(element_groups) - 1 (values = members of the non-ALL groups)
         n_el = sum(len(ids) for _, ids, _ in em['elems'])
@@ -932,6 +1001,11 @@ def replay(path):
     c = rp['case']
     ctx = lib.Ctx(PID, 'quick')
     work = ctx.scratch / 'replay'
+    try:
+        tbl, _, _ = c01_tables.translate_degrading(str(lib.REPO))
+        build_snapshot(ctx, c01_tables.emit(tbl))
+    except Exception as e:  # noqa  (replay still runs the implementation side)
+        print('model snapshot not available:', e)
     if 'text' in c:
         jobs = [{'op': 'read', 'id': 0, 'dir': str(work / 'v'),
                  'files': {'mesh.msh': '\n'.join(c['text']) + '\n'}, 'read': ['mesh.msh']}]
